@@ -817,11 +817,62 @@ def scipy_oracle(spec):
     return {'nt': bool(spec['kw']) or inf, 'cls': labs}
 
 
+# -------------------------------------------------------------------------------------------------
+# quad with scipy's weight option and observable parameters: the keyword arguments that define the integrand
+# (weight, wvar) must reach the derivative-under-the-integral terms as well
+
+@st.composite
+def weight_case(draw, tier):
+    p = [draw(gen.fl(0.5, 2.0)), draw(gen.fl(0.2, 2.0))]
+    a = draw(gen.fl(0.0, 1.5))
+    b = a + draw(gen.fl(0.3, 2.5))
+    mask = draw(st.sampled_from([[True, True], [True, False], [False, True]]))
+    ops = draw(operand_specs([p[i] for i in range(2) if mask[i]], tier))
+    return {'p': p, 'a': a, 'b': b, 'mask': mask, 'ops': ops, 'weight': draw(st.sampled_from(['cos', 'sin'])), 'w': draw(gen.fl(0.5, 5.0)),
+            'reverse': draw(st.booleans())}
+
+
+def weight_oracle(spec):
+    import cmath
+    import pyerrors as pe
+    anp = _anp()
+    p0, p1 = spec['p']
+    a, b = (spec['b'], spec['a']) if spec['reverse'] else (spec['a'], spec['b'])
+    idx = [i for i in range(2) if spec['mask'][i]]
+    obs, labs = make_operands(spec['ops'], [spec['p'][i] for i in idx], [False] * len(idx), [[[(0.05, 10.0)]]] * len(idx))
+    args = [p0, p1]
+    for i, o in zip(idx, obs):
+        args[i] = o
+    pv = [float(x.value) if isinstance(x, pe.Obs) else float(x) for x in args]
+    w = spec['w']
+    out = pe.integrate.quad(lambda p, x: p[0] * anp.exp(-p[1] * x), args, a, b, weight=spec['weight'], wvar=w, epsabs=1e-12, epsrel=1e-12)
+    res = out[0]
+    require(isinstance(res, pe.Obs), 'quad with observable parameters did not return an Obs', type(res).__name__)
+    sc = complex(-pv[1], w)
+    base = (cmath.exp(sc * b) - cmath.exp(sc * a)) / sc                       # int_a^b exp((-p1 + i w) x) dx
+    dbase = -((b * cmath.exp(sc * b) - a * cmath.exp(sc * a)) / sc - (cmath.exp(sc * b) - cmath.exp(sc * a)) / sc ** 2)   # d/dp1
+    part = (lambda z: z.real) if spec['weight'] == 'cos' else (lambda z: z.imag)
+    want = pv[0] * part(base)
+    grads = [part(base), pv[0] * part(dbase)]
+    scale = abs(pv[0]) * abs(b - a)
+    require(abs(float(res.value) - want) <= 1e-9 * scale, 'quad(weight=%s): value differs from the closed form' % spec['weight'], float(res.value), want)
+    refs = [RefObs.from_pe(o) for o in obs]
+    v = float(res.value)
+    rf = combine(lambda x: v, [grads[i] for i in idx], refs, value=v)
+    for k_ in rf.mag:
+        rf.mag[k_] += 1e3 * sum(abs(scale) * r.mag.get(k_, 0.0) for r in refs)
+    cmp_obs(rf, res, 'quad(weight=%s, wvar=%.3g) with observable parameters vs closed form' % (spec['weight'], w), rtol=1e-8, atol_scale=1e-12, check_rv=False)
+    labs.update(['weight:' + spec['weight'], 'observable:' + ''.join('p%d' % i for i in idx), 'reversed' if spec['reverse'] else 'ascending'])
+    return {'nt': True, 'cls': sorted(labs)}
+
+
 SUBS = [
     Sub('root', root_case, root_oracle, {'quick': 400, 'thorough': 12000}, {'quick': 7, 'thorough': 16},
         doc='find_root: root, -(df/dd)/(df/dx) propagation through RefObs.combine, explicit inverse', max_skip_frac=0.2),
     Sub('quad', quad_case, quad_oracle, {'quick': 400, 'thorough': 10000}, {'quick': 8, 'thorough': 16},
         doc='integrate.quad with observable parameters / limits vs analytic antiderivative through RefObs.combine', max_skip_frac=0.2),
+    Sub('weight', weight_case, weight_oracle, {'quick': 150, 'thorough': 3000}, {'quick': 2, 'thorough': 4},
+        doc='integrate.quad with weight= / wvar= and observable parameters vs closed form'),
     Sub('scipy', scipy_case, scipy_oracle, {'quick': 500, 'thorough': 10000}, {'quick': 1, 'thorough': 2},
         doc='integrate.quad without observables returns the tuple of scipy.integrate.quad'),
 ]
